@@ -55,10 +55,13 @@ class Message:
         if self.limit_request_field_size < 0:
             self.limit_request_field_size = DEFAULT_MAX_HEADERFIELD_SIZE
 
-        # set max header buffer size
-        max_header_field_size = self.limit_request_field_size or DEFAULT_MAX_HEADERFIELD_SIZE
-        self.max_buffer_headers = self.limit_request_fields * \
-            (max_header_field_size + 2) + 4
+        # set max header buffer size; limit_request_field_size = 0 is
+        # documented as "unlimited header field sizes": no block of header
+        # fields is then too large, so there is no cap (0) on the buffer either
+        self.max_buffer_headers = 0
+        if self.limit_request_field_size > 0:
+            self.max_buffer_headers = self.limit_request_fields * \
+                (self.limit_request_field_size + 2) + 4
 
         unused = self.parse(self.unreader)
         self.unreader.unread(unused)
@@ -302,7 +305,7 @@ class Request(Message):
             done = data[:2] == b"\r\n"
 
             if idx < 0 and not done:
-                if len(data) > self.max_buffer_headers:
+                if len(data) > self.max_buffer_headers > 0:
                     raise LimitRequestHeaders("max buffer headers")
                 self.get_data(unreader, buf)
                 data = buf.getvalue()
